@@ -297,6 +297,13 @@ ADDED_B13 = {
     "C15": "Added after the thirteenth batch: C15.15 the Record lowering and the mapped-type lowering classify the members of a key type alike (what describe() prints as [K in ..] compiles back to an index signature).",
     "C16": "Added after the thirteenth batch: C16.9 the mark / store protocol of the printing context is driven by validator classes only (parser keys are another namespace).",
 }
+ADDED_B13B = {
+    "C08": "C08.14 (= C13.12) the structural hashes of unions and intersections do not depend on the order - i.e. on the names - of their members (4 recorded findings, confirmed by executing the real runtime under node).",
+    "C13": "C13.12 a digest specified to be independent of member order and of type names folds the members of a union / intersection commutatively or in a name-free canonical order (recorded findings: AnyOfRuntype / AllOfRuntype .hash and .hash256 write list order, and the compiler lists named members by name).",
+    "C15": "C15.16 describe() never prints a mapped member `[K in ..]` inside braces that also hold declared properties (recorded finding: such text is not TypeScript and does not compile back).",
+}
+for _k, _v in ADDED_B13B.items():
+    ADDED_B13[_k] = (ADDED_B13.get(_k, "") + " " + _v).strip()
 for _k, _v in ADDED_B11.items():
     ADDED_B10[_k] = (ADDED_B10.get(_k, "") + " " + _v).strip()
 for _k, _v in ADDED_B12.items():
